@@ -661,7 +661,7 @@ fn backpressure(res: &mut PartResult, buffer: Option<usize>) {
 
 fn parts(ctx: &Ctx) -> Vec<PartSpec> {
     let mut v = Vec::new();
-    let b = if ctx.quick() { 55.0 } else { 2400.0 };
+    let b = if ctx.quick() { 160.0 } else { 2400.0 };
     let buffers: [(&str, Option<usize>); 4] = [("1", Some(1)), ("2", Some(2)), ("1024", Some(1024)), ("none", None)];
     for (bn, bv) in buffers {
         let bj = bv.map(|x| json!(x)).unwrap_or(json!(null));
